@@ -305,7 +305,7 @@ func fitLimits(sc *MuxScenario) {
 		mi := methods[sp.Method]
 		if sp.Proto != "ws" && sp.Codec != "body" {
 			for j, rq := range sp.Msgs {
-				n := len(marshalMsg(sp.Codec, mi.mkReq(payloadFor(sp.ID, j, 'C', rq), ""))) + len(sp.Sep)
+				n := len(marshalMsg(sp.Codec, mi.mkReq(payloadFor(sp.payloadID(), j, 'C', rq), ""))) + len(sp.Sep)
 				if sp.Compress && sp.Proto != "http" {
 					n += 64
 				}
@@ -318,7 +318,7 @@ func fitLimits(sc *MuxScenario) {
 			continue
 		}
 		for j, rsp := range sp.Handler.Resps {
-			m := mi.mkResp(payloadFor(sp.ID, j, 'S', rsp))
+			m := mi.mkResp(payloadFor(sp.payloadID(), j, 'S', rsp))
 			n := len(marshalMsg(sp.Codec, m))
 			if sp.Compress {
 				n += 64
@@ -496,7 +496,7 @@ func oracleStream(prop string, mr *muxRun, rs *reqState, cnt *[core.NumCounters]
 		// raw passthrough: concatenation of the sent payloads
 		var want []byte
 		for i := 0; i < l.Sent; i++ {
-			want = append(want, payloadFor(sp.ID, i, 'S', sp.Handler.Resps[i])...)
+			want = append(want, payloadFor(sp.payloadID(), i, 'S', sp.Handler.Resps[i])...)
 		}
 		got := resp.Body
 		if !writeFault {
@@ -518,7 +518,7 @@ func oracleStream(prop string, mr *muxRun, rs *reqState, cnt *[core.NumCounters]
 			if i >= len(sp.Handler.Resps) {
 				return fail("response-extra-message", "client decoded message #%d but the handler only has %d responses", i, len(sp.Handler.Resps))
 			}
-			want := rs.method.mkResp(payloadFor(sp.ID, i, 'S', sp.Handler.Resps[i]))
+			want := rs.method.mkResp(payloadFor(sp.payloadID(), i, 'S', sp.Handler.Resps[i]))
 			if !proto.Equal(got, want) {
 				return fail("response-mismatch", "client message #%d differs: got %s want %s", i, msgPreview(got), msgPreview(want))
 			}
@@ -594,7 +594,7 @@ func oracleHTTPBodyRecv(prop string, mr *muxRun, rs *reqState, fail func(string,
 	if sp.Compress {
 		upload = nil
 		for i := range sp.Msgs {
-			upload = append(upload, payloadFor(sp.ID, i, 'C', sp.Msgs[i])...)
+			upload = append(upload, payloadFor(sp.payloadID(), i, 'C', sp.Msgs[i])...)
 		}
 	}
 	delivered := upload
